@@ -30,8 +30,71 @@ def tlc_graph(ctx, module, cfg, ignore_untaken=(), timeout=3000, workers=None, h
     return g, res
 
 
+def pair_cover(ctx, g, lp, exe, variant, hargs, keyfn, cap, line=step_line, env=None, jobs=None):
+    """2-step transition cover: every verified state-changing edge e1 followed by every edge e2 enabled in its post-state.
+    The single-edge cover reaches each abstract state by ONE history (the shortest); an implementation carries hidden state
+    (capacity, tail pointers, stale bytes) that depends on the history, so a defect in e1 that only e2 exposes needs e1;e2
+    executed in a row.  Scripts: path(pre(e1)) + e1 + [all self-loops of post(e1)], and path + e1 + e2 for each move e2."""
+    import random
+    from .graph import Script
+    rnd = random.Random(ctx.seed + 17)
+    cands = []
+    for e1 in sorted(lp.verified):
+        if g.is_loop(e1):
+            continue
+        u, v = g.pre_key(e1), g.post_key(e1)
+        if u not in lp.path:
+            continue
+        outs = [i for i in g.out[v] if i in lp.verified]
+        loops = [i for i in outs if g.is_loop(i)]
+        moves = [i for i in outs if not g.is_loop(i)]
+        if loops:
+            cands.append((e1, loops))
+        for e2 in moves:
+            cands.append((e1, [e2]))
+    total = len(cands)
+    if cap and total > cap:
+        cands = rnd.sample(cands, cap)
+    scripts = []
+    for e1, tg in cands:
+        lp.sid += 1
+        scripts.append(Script(lp.sid, list(lp.path[g.pre_key(e1)]) + [e1], tg))
+    if not scripts:
+        return 0, 0, 0
+    texts = [sc.text(g, line) for sc in scripts]
+    bysid = {sc.sid: sc for sc in scripts}
+    fails, _, ns, nt = run_scripts(exe, hargs, texts, ctx.rundir, jobs=jobs, env=env, tag="%s-pairs" % variant)
+    seen = set()
+    nf = 0
+    for f in fails:
+        sc = bysid.get(f.sid)
+        if sc is None:
+            continue
+        ix = sc.edge_indexes()
+        st = min(f.step, len(ix) - 1)
+        e2 = g.edict(ix[st])
+        e1 = g.edict(sc.prefix[-1])
+        where = "prefix" if st < len(sc.prefix) - 1 else ("first" if st == len(sc.prefix) - 1 else "second")
+        key = "pair %s after %s (%s)" % (keyfn(variant, e2, f), e1["op"], where)
+        nf += 1
+        if key in seen:
+            if key in ctx.violations:
+                ctx.violations[key][2] += 1
+            continue
+        seen.add(key)
+        ctx.report(key, "%s: 2-step cover: %s at step %d (%s) after (%s): exp=%s got=%s %s" % (
+            variant, f.kind, f.step, g.line(ix[st]), g.line(sc.prefix[-1]), f.exp, f.got, f.sig),
+            {"variant": variant, "harness_args": hargs, "script": sc.describe(g, st), "failure": repr(f), "detail": f.detail,
+             "script_text": sc.text(g, line)})
+    ctx.cov.setdefault("replay", {}).setdefault(variant, {}).update(
+        {"pair_scripts": len(scripts), "pair_candidates": total, "pair_failures": nf})
+    ctx.add("traces_validated_against_impl", ns)
+    ctx.add("evaluations", nt)
+    return ns, nt, nf
+
+
 def replay_cover(ctx, g, inits, exe, variant, hargs, keyfn, walks=(0, 0), line=step_line, env=None, jobs=None,
-                 max_levels=200, max_violation_keys=40):
+                 max_levels=200, max_violation_keys=40, pairs=0):
     """Transition cover + walks for one implementation variant.  keyfn(variant, edge_or_None, fail) -> finding key."""
     lp = LevelPlanner(g, inits)
     nscripts = nsteps = 0
@@ -139,6 +202,8 @@ def replay_cover(ctx, g, inits, exe, variant, hargs, keyfn, walks=(0, 0), line=s
         "wall_s": round(time.time() - t0, 1)}
     ctx.add("traces_validated_against_impl", nscripts)
     ctx.add("evaluations", nsteps)
+    if pairs and not ctx.violations:
+        pair_cover(ctx, g, lp, exe, variant, hargs, keyfn, pairs, line=line, env=env, jobs=jobs)
     return lp
 
 
